@@ -78,16 +78,22 @@ def rb_probe(ctx, exe):
         c = {"Cap": cap, "Reserve": cap - low, "NoLeakLen": reps[0]["apps"][0]["ret"]}
         assert reps[1]["stated"] == 1 and reps[1]["listed"] == 1 and not reps[1]["notice"] and reps[0]["stated"] == 0
         c["HeaderLen"] = reps[1]["apps"][0]["ret"]
-        foot = [a for a in reps[1]["apps"] if a["lim"] != low]
-        c["FooterBase"] = foot[0]["ret"] - 1
-        foot = [a for a in reps[2]["apps"] if a["lim"] != low]
-        c["WarnLen"] = foot[1]["ret"]
-        foot = [a for a in reps[3]["apps"] if a["lim"] != low]
-        assert reps[3]["notice"] and len(foot) == 2
-        c["NoticeLen"] = foot[0]["ret"]
+        # the pieces written after the listing (limit put back): measured as sums, so that it does not matter into how many writes
+        # the code splits them - footer of a report of 1 leak; the same plus the malloc warning; notice plus footer of report 3
+        tail = lambda r: sum(a["ret"] for a in r["apps"] if a["lim"] != low)
+        digits = lambda n: len(str(n))
+        c["FooterBase"] = tail(reps[1]) - digits(reps[1]["n"])
+        c["WarnLen"] = tail(reps[2]) - tail(reps[1])
+        assert reps[3]["notice"] and not reps[3]["warn"]
+        c["NoticeLen"] = tail(reps[3]) - c["FooterBase"] - digits(reps[3]["n"])
+        assert c["FooterBase"] > 0 and c["WarnLen"] > 0 and c["NoticeLen"] > 0
         lead = [a for a in reps[1]["apps"] if a["lim"] == low]
-        nominal = {"MsgBase": mis[0]["apps"][0]["ret"], "ABase": mis[1]["apps"][1]["ret"], "FBase": mis[1]["apps"][2]["ret"],
-                   "LBase": max(1, sum(a["ret"] for a in lead[1:]) - 1 - 63)}
+        # typical lengths of the pieces of a misuse message, used only to size the model-checking configuration: taken from the
+        # individual writes when the code makes them separately, else a third of the whole message each
+        m0, m1 = [a["ret"] for a in mis[0]["apps"]], [a["ret"] for a in mis[1]["apps"]]
+        third = max(1, sum(m1) // 3)
+        nominal = {"MsgBase": m0[0] if len(m0) > 1 else max(1, sum(m0) // 2), "ABase": m1[1] if len(m1) > 2 else third,
+                   "FBase": m1[2] if len(m1) > 2 else third, "LBase": max(1, sum(a["ret"] for a in lead[1:]) - 1 - 63)}
     except (AssertionError, IndexError, KeyError) as ex:
         raise Infra("projection broken: the probe reports do not have the expected shape (%r): %s" % (ex, json.dumps(reps)[:1200]))
     return c, nominal
